@@ -264,40 +264,31 @@ def check_counts(P, ctx, fr):
 
 
 def check_backshift(P, ctx):
+    """the back-shift loop of Table_Rem: next slot (j+1) % nslots; it shifts exactly when the next slot is occupied and its entry is
+    away from home — decided as a truth table over (stored hash, probe distance) by walking the loop with the analyser's evaluator,
+    so the spelling of the test (nested, negated, early break) does not matter; one step copies the whole record and clears the source"""
+    from .rules_c17 import backshift_form
     rule = 'C02.back-shift'
     fn = P.fn('Table_Rem')
-    g = P.cfg(fn)
-    N = util.Norm(P, fn, inline=False)
-    njd = [n for n in g.live() if n.get('decl') and n['decl']['init'] is not None and ir.nocast(n['decl']['init'])[0] == 'bin' and ir.nocast(n['decl']['init'])[1] == '%'
-           and not any(x[0] == 'call' for x in ir.walk(n['decl']['init']))]
-    ok = len(njd) == 1
+    bf = backshift_form(P, 'Table_Rem', probe_fn='Table_Probe')
     detail = []
+    ok = bf is not None
     if ok:
-        njn = njd[0]
-        nj = ('local', njn['decl']['name'], njn['decl']['id'])
-        jv = [x for x in ir.walk(ir.nocast(njn['decl']['init'])) if x[0] == 'local'][0]
-        nhd = [n for n in g.live() if n.get('decl') and n['decl']['init'] is not None and probe._slot_hash_read(n['decl']['init']) == nj]
-        roles = {nj: ('local', 'NJ'), jv: ('local', 'J')}
-        if len(nhd) == 1:
-            roles[('local', nhd[0]['decl']['name'], nhd[0]['decl']['id'])] = ('local', 'NH')
-
-        def rc(e):
-            return ir.fmt(N.canon(ir.subst(ir.nocast(e), roles)))
-        lpn = g.innermost_loop_of(njn['id']) or set()
-        conds = sorted(rc(g.nodes[i]['expr']) for i in lpn if g.nodes[i]['kind'] == 'cond')
-        acts = sorted(rc(g.nodes[i]['expr']) for i in lpn if g.nodes[i]['kind'] == 'stmt' and g.nodes[i]['expr'] is not None)
-        want_c = sorted(['(0 != NH)', '(0 < Table_Probe(arg0, NJ, NH))'])
-        ok = rc(njn['decl']['init']) == '((1 + J) % arg0->nslots)' and conds == want_c
-        detail = ['next slot: %s' % rc(njn['decl']['init']), 'continue while: %s' % conds, 'registry (reference): %s' % want_c]
+        want_tab = {(0, 0): False, (0, 1): False, (0, 5): False, (3, 0): False, (3, 1): True, (3, 5): True}
+        ok = bf['next'] == '((1 + J) % arg0->nslots)' and bf['table'] == want_tab
+        detail = ['next slot: %s' % bf['next'], 'shifts for (stored hash, probe distance): %s' % sorted(k for k, v in bf['table'].items() if v),
+                  'expected: [(3, 1), (3, 5)] (occupied and away from home)']
         step = ('call', ('func', 'Table_Step'), (('param', 0),))
         slot = lambda v: ('bin', '+', ('arrow', ('param', 0), 'data'), ('bin', '*', ('local', v), step))
         cf = lambda e: ir.fmt(ir.canon(e))
-        want_a = sorted(['J = NJ', 'NH = Table_Key_Hash(arg0, NJ)', 'NJ = ((1 + J) % arg0->nslots)',
-                         cf(('call', ('func', 'memcpy'), (slot('J'), slot('NJ'), step))), cf(('call', ('func', 'memset'), (slot('NJ'), ('int', 0), step)))])
-        if acts != want_a:
+        need = [cf(('call', ('func', 'memcpy'), (slot('J'), slot('NJ'), step))), cf(('call', ('func', 'memset'), (slot('NJ'), ('int', 0), step))), 'J = NJ']
+        missing = [a for a in need if a not in bf['acts']]
+        if missing:
             ok = False
-            detail.append('loop body: %s' % acts)
-            detail.append('expected:  %s' % want_a)
+            detail.append('a shifting step lacks: %s' % missing)
+            detail.append('loop body: %s' % list(bf['acts']))
+    else:
+        detail = ['back-shift loop (next-slot index, hash read of the next slot, one record copy) not found in Table_Rem or its helpers']
     ctx.check(ok, rule, 'Table_Rem', site(fn), 'after a removal the following entries are shifted back one slot, each moved as a whole record, exactly while the next slot is occupied and its '
               'entry is away from home (probe distance > 0, which accounts for wrap-around); the vacated slot is cleared', detail)
     ctx.floor(rule, 1)
